@@ -9,7 +9,9 @@
 (* constructible atoms plus the depth-1 terms of TransformsPool.tla) into  *)
 (* Composition(t, s),                                                      *)
 (* Composition(s, t), Conjunction([t, s]), Conjunction([s, t]),            *)
-(* Stack([t, s]), Stack([s, t]), Conjunction([t]), Stack([t]).  A term     *)
+(* Stack([t, s]), Stack([s, t]), Conjunction([t]), Stack([t]); an atom t   *)
+(* is also put into the flat three-member lists Conjunction([t, s, u]) and *)
+(* Stack([t, s, u]) with atoms s, u requiring the same keys.  A term        *)
 (* that cannot be built is a dead end (the real constructor must raise).   *)
 (* Atoms are always expanded; of the depth-1 terms those whose content     *)
 (* hash is Pick1 modulo Mod1, of the deeper ones Pick2 modulo Mod2.        *)
@@ -20,11 +22,15 @@
 (* and satisfy the constraints of their type (KeyTyped); key mismatch is   *)
 (* refused (KeyMismatch); associativity of composition, commutativity and  *)
 (* associativity of conjunction (Laws).  Every term is exported with its   *)
-(* verdicts for replay on the real classes.                                *)
+(* verdicts for replay on the real classes.  PresentationFree: the atom a   *)
+(* one-traversal constructor obtains from any admissible presentation of   *)
+(* its key collections (list, tuple, set, dict view, iterator, generator;  *)
+(* any enumeration order) is the term itself; the table of admissible      *)
+(* forms is exported (FORMS) for the replay / trace driver.                *)
 (***************************************************************************)
 EXTENDS Transforms, TransformsPool, TLC, Json
 
-CONSTANTS MaxDepth, Mod1, Pick1, Mod2, Pick2, ExportMod
+CONSTANTS MaxDepth, Mod1, Pick1, Mod2, Pick2, ExportMod, Mod3, Pick3
 
 VARIABLES t
 vars == <<t>>
@@ -67,8 +73,17 @@ Init == t \in Atoms \cup Nullary
 Expandable == /\ Constructible(t) /\ Depth(t) < MaxDepth
               /\ (Depth(t) = 1 => (TermHash(t) % Mod1) = Pick1)
               /\ (Depth(t) >= 2 => (TermHash(t) % Mod2) = Pick2)
-Next == /\ Expandable
-        /\ \E s \in Pool : t' \in Wraps(t, s)
+\* flat member lists of THREE members: an atom with two atoms that require the same keys (so that the
+\* verdict hinges on the pairwise disjointness of the output keys of ALL pairs, adjacent or not, and on
+\* the stacking of three rows); a content-hash sample Pick3 modulo Mod3 of the ordered triples
+SameReq(x) == {y \in CAtoms : Req(y) = Req(x)}
+Wraps3(x, s, u) == {TConj(<<x, s, u>>), TStack(<<x, s, u>>)}
+Ternary(x) == x.op \in {"conj", "stack"} /\ Len(x.ts) = 3
+Next == \/ /\ Expandable /\ ~Ternary(t)
+           /\ \E s \in Pool : t' \in Wraps(t, s)
+        \/ /\ IsAtom(t) /\ Constructible(t) /\ MaxDepth >= 1
+           /\ \E s, u \in SameReq(t) : /\ ((TermHash(t) + 3 * TermHash(s) + 7 * TermHash(u)) % Mod3) = Pick3
+                                        /\ t' \in Wraps3(t, s, u)
 Spec == Init /\ [][Next]_vars
 
 \* ------------------------------------------------------------------ properties
@@ -87,6 +102,9 @@ KeyTyped == Constructible(t) =>
 
 KeyMismatch == Constructible(t) =>
                  \A K \in KeySets : K # Req(t) => Apply("prop", t, InputDict("G", K)).st = "keyerror"
+
+\* the verdicts do not depend on how the key collections are presented to the constructors
+PresentationFree == IsAtom(t) => PresentationFreeAtom(t)
 
 \* the re-associated / mirrored variants of t the laws speak about
 LawTerms ==
@@ -121,5 +139,8 @@ Scenario == [term |-> t, depth |-> Depth(t), ok |-> Constructible(t), hash |-> T
              apps |-> IF Constructible(t) THEN [i \in DOMAIN KindSeq(Req(t)) |-> AppRec(KindSeq(Req(t))[i])] ELSE <<>>,
              laws |-> IF Constructible(t) THEN SetToSeq(LawTerms) ELSE <<>>]
 \* every constructible term is exported; of those that cannot be built, 1 out of ExportMod
-Export == (Constructible(t) \/ (TermHash(t) % ExportMod) = 0) => PrintT(<<"TERM", ToJson(Scenario)>>)
+\* (and every three-member list: there the refusals are the point)
+Export == (Constructible(t) \/ (TermHash(t) % ExportMod) = 0 \/ Ternary(t)) => PrintT(<<"TERM", ToJson(Scenario)>>)
+\* the admissible argument presentations (once, from the nullary conjunction)
+ExportForms == (t = TConj(<<>>)) => PrintT(<<"FORMS", ToJson([table |-> FormTable])>>)
 =============================================================================
